@@ -19,10 +19,13 @@ import (
 	"sync"
 	"testing"
 	"testing/synctest"
+	"time"
 
 	"github.com/saucelabs/forwarder/internal/zzverif/bubble"
 	"github.com/saucelabs/forwarder/internal/zzverif/explore"
 	"github.com/saucelabs/forwarder/internal/zzverif/simnet"
+	"github.com/saucelabs/forwarder/internal/zzverif/tsched"
+	"github.com/saucelabs/forwarder/internal/zzverif/vsync"
 	"golang.org/x/net/http2"
 	"golang.org/x/net/http2/hpack"
 )
@@ -56,14 +59,14 @@ type ep struct {
 	done    chan struct{}
 
 	// as receiver: the credit this endpoint has granted
-	iws      int
-	wuConn   int
-	wuStream map[uint32]int
-	gotConn  int
-	gotStrm  map[uint32]int
-	maxFrame int
+	iws          int
+	wuConn       int
+	wuStream     map[uint32]int
+	gotConn      int
+	gotStrm      map[uint32]int
+	maxFrame     int
 	maxFrameEver int // largest SETTINGS_MAX_FRAME_SIZE this endpoint ever announced
-	checked  int
+	checked      int
 	// as sender
 	sentConn int
 	sentStrm map[uint32]int
@@ -286,20 +289,23 @@ func (e *ep) connWin() int           { return 65535 + e.wuConn - e.gotConn }
 // ---- the system ---------------------------------------------------------------------------------------
 
 type sys struct {
-	x          *explore.X
-	net        *simnet.Net
-	c, s       *ep
-	cToS, sToC *relay
-	closing    chan bool
-	relayErr   [2]error
-	relayDone  [2]chan struct{}
-	dbg        bool
-	focus      string // "C09" or "C10": which property's oracles report
+	x            *explore.X
+	net          *simnet.Net
+	c, s         *ep
+	cToS, sToC   *relay
+	closing      chan bool
+	relayErr     [2]error
+	relayDone    [2]chan struct{}
+	dbg          bool
+	focus        string // "C09" or "C10": which property's oracles report
+	noRelayLoops bool
 }
 
 var focus = "C09"
 
-func newSys(x *explore.X) *sys {
+func newSys(x *explore.X) *sys { return buildSys(x, false) }
+
+func buildSys(x *explore.X, deferStart bool) *sys {
 	y := &sys{x: x, net: simnet.New(), closing: make(chan bool), focus: focus}
 	lc, _ := y.net.Listen("relay-c.test:1")
 	ls, _ := y.net.Listen("relay-s.test:1")
@@ -321,17 +327,24 @@ func newSys(x *explore.X) *sys {
 	}
 	sToC.processors = cToS.processors
 	y.cToS, y.sToC = cToS, sToC
-	for i, r := range []*relay{cToS, sToC} {
+	y.c, y.s = newEp("client", cEnd), newEp("server", sEnd)
+	if !deferStart {
+		y.start(func(name string, f func()) { go f() })
+		synctest.Wait()
+	}
+	return y
+}
+
+// start launches the two relayFrames loops with the given spawner (plain goroutines, or scheduler threads).
+func (y *sys) start(spawn func(name string, f func())) {
+	for i, r := range []*relay{y.cToS, y.sToC} {
 		i, r := i, r
 		y.relayDone[i] = make(chan struct{})
-		go func() {
+		spawn([]string{"relay-c2s", "relay-s2c"}[i], func() {
 			defer close(y.relayDone[i])
 			y.relayErr[i] = r.relayFrames(y.closing)
-		}()
+		})
 	}
-	y.c, y.s = newEp("client", cEnd), newEp("server", sEnd)
-	synctest.Wait()
-	return y
 }
 
 func (y *sys) stop() {
@@ -367,11 +380,19 @@ func (y *sys) relayTo(e *ep) *relay {
 }
 
 // oracle runs at quiescence. ev describes the last event (for messages).
+func (y *sys) oracleNoRelayCheck(ev string) bool {
+	y.noRelayLoops = true
+	return y.oracle(ev)
+}
+
 func (y *sys) oracle(ev string) bool {
 	x := y.x
 	synctest.Wait()
 	x.Check()
 	for i, err := range y.relayErr {
+		if y.noRelayLoops {
+			break
+		}
 		select {
 		case <-y.relayDone[i]:
 			x.Failf("relay-terminated", "after %s: relay %d terminated: %v", ev, i, err)
@@ -689,7 +710,26 @@ func reqHeaders(path string) []hpack.HeaderField {
 // ---- family 1: flow control ---------------------------------------------------------------------------
 
 func flowScenario(x *explore.X, depth int) {
-	y := newSys(x)
+	// the order in which the relay visits its per-stream queues (a Go map) is an explored choice
+	var y *sys
+	vsync.MapOrder = func(label string, n int) int {
+		// (called by the relay inside sendQueuedFramesUnderWindowSize, i.e. with flowMu held by the caller)
+		// the visiting order is observable only when at least two streams have something queued
+		queued := 0
+		for _, r := range []*relay{y.cToS, y.sToC} {
+			for _, ob := range r.outputBuffers {
+				if ob.queue.Len() > 0 {
+					queued++
+				}
+			}
+		}
+		if queued < 2 {
+			return 0
+		}
+		return x.ChooseFree(label, n)
+	}
+	defer func() { vsync.MapOrder = nil }()
+	y = newSys(x)
 	defer y.stop()
 	dir := x.ChooseFree("data-direction", 2) // 0: client -> server, 1: server -> client
 	w := []int{8, 16}[x.ChooseFree("window", 2)]
@@ -699,11 +739,17 @@ func flowScenario(x *explore.X, depth int) {
 		a, b = y.s, y.c
 	}
 	// setup: the receiver announces a small initial window; streams 1 and 3 are opened
+	// (one frame at a time, each followed by quiescence: the two relays must not race on the queue map
+	// while the streams are being created, otherwise the number of map-order choice points would vary)
 	b.sendSettings(http2.Setting{ID: http2.SettingInitialWindowSize, Val: uint32(w)})
+	synctest.Wait()
 	y.c.sendHeaders(1, reqHeaders("/1"), false, http2.PriorityParam{}, 0)
+	synctest.Wait()
 	y.c.sendHeaders(3, reqHeaders("/3"), false, http2.PriorityParam{}, 0)
+	synctest.Wait()
 	if dir == 1 {
 		y.s.sendHeaders(1, hdr(":status", "200"), false, http2.PriorityParam{}, 0)
+		synctest.Wait()
 		y.s.sendHeaders(3, hdr(":status", "200"), false, http2.PriorityParam{}, 0)
 	}
 	if !y.oracle("setup") {
@@ -712,8 +758,10 @@ func flowScenario(x *explore.X, depth int) {
 	if tight {
 		// stream 5 consumes the connection window down to w+4 octets
 		y.c.sendHeaders(5, reqHeaders("/5"), false, http2.PriorityParam{}, 0)
+		synctest.Wait()
 		if dir == 1 {
 			y.s.sendHeaders(5, hdr(":status", "200"), false, http2.PriorityParam{}, 0)
+			synctest.Wait()
 		}
 		b.sendWU(5, 70000)
 		y.oracle("setup-5")
@@ -721,6 +769,7 @@ func flowScenario(x *explore.X, depth int) {
 		for left > 0 {
 			n := min(left, 16000)
 			a.sendData(5, bytes.Repeat([]byte{'z'}, n), 0, false)
+			synctest.Wait()
 			left -= n
 		}
 		if !y.oracle("setup-connection-window") {
@@ -870,7 +919,10 @@ func fidelityScenario(x *explore.X, depth int) {
 			if cOpen[s] && !sEnd[s] {
 				if !sOpen[s] {
 					evs = append(evs,
-						event{fmt.Sprintf("S:HEADERS(s%d)", s), func() { y.s.sendHeaders(s, hdr(":status", "200", "x-res", "1"), false, http2.PriorityParam{}, 0); sOpen[s] = true }},
+						event{fmt.Sprintf("S:HEADERS(s%d)", s), func() {
+							y.s.sendHeaders(s, hdr(":status", "200", "x-res", "1"), false, http2.PriorityParam{}, 0)
+							sOpen[s] = true
+						}},
 						event{fmt.Sprintf("S:HEADERS+CONT(s%d)", s), func() {
 							y.s.sendHeaders(s, hdr(":status", "200", "x-res", "2"), false, http2.PriorityParam{}, 2)
 							sOpen[s] = true
@@ -1005,6 +1057,99 @@ func frameSizeScenario(x *explore.X, depth int) {
 	x.Outcome(fmt.Sprintf("dir%d iws%d max=%d/%d got=%d", dir, iws, a.maxFrame, b.maxFrame, b.gotConn))
 }
 
+// ---- family 4 (Engine T): the two relays under a controlled scheduler ----------------------------------------
+
+// schedScenario: the frames of both endpoints are already in the sockets. Four scheduler threads run
+// processFrame(client frames) on the client-to-server relay, processFrame(server frames) on the
+// server-to-client relay, and one writer per relay (the loop relayFrames runs: take a queued frame, lock the
+// destination, send it). Every interleaving of their lock / atomic / channel hand-over operations within the
+// preemption bound is explored; when all frames are processed and written every oracle of the property runs.
+func schedScenario(t *testing.T, x *explore.X) {
+	variant := x.ChooseFree("server-frames", 4)
+	w := 8
+	var y *sys
+	var perr [2]error
+	tsched.Run(t, x, time.Second, true, func() {
+		y = buildSys(x, true)
+		for i := range y.relayDone {
+			y.relayDone[i] = make(chan struct{})
+		}
+		// server: small window, then credit arriving while the client's DATA is being queued
+		y.s.sendSettings(http2.Setting{ID: http2.SettingInitialWindowSize, Val: uint32(w)})
+		y.c.sendHeaders(1, reqHeaders("/1"), false, http2.PriorityParam{}, 0)
+		y.c.sendData(1, []byte("12345678"), 0, false)
+		y.c.sendData(1, []byte("abcdefgh"), 0, false)
+		nServer := 2
+		switch variant {
+		case 0:
+			y.s.sendWU(1, w)
+		case 1:
+			y.s.sendWU(1, w)
+			y.s.sendWU(0, w)
+			nServer = 3
+		case 2:
+			y.s.sendSettings(http2.Setting{ID: http2.SettingInitialWindowSize, Val: uint32(2 * w)})
+		case 3:
+			y.s.sendSettings(http2.Setting{ID: http2.SettingInitialWindowSize, Val: uint32(w / 2)})
+			y.s.sendWU(1, 2*w)
+			nServer = 3
+		}
+		y.c.sendData(1, nil, 0, true)
+		for i, spec := range []struct {
+			r *relay
+			n int
+		}{{y.cToS, 4}, {y.sToC, nServer}} {
+			i, r, n := i, spec.r, spec.n
+			vsync.GoNamed([]string{"process-client-frames", "process-server-frames"}[i], func() {
+				for k := 0; k < n; k++ {
+					f, err := r.src.ReadFrame()
+					if err == nil {
+						err = r.processFrame(f)
+					}
+					if err != nil {
+						perr[i] = err
+						return
+					}
+				}
+			})
+			vsync.GoNamed([]string{"writer-to-server", "writer-to-client"}[i], func() {
+				for {
+					select {
+					case f := <-r.output:
+						vsync.Point("writer: frame taken from the output channel")
+						r.destMu.Lock()
+						err := f.send(r.dest)
+						r.destMu.Unlock()
+						if err != nil {
+							perr[i] = err
+							return
+						}
+					case <-y.closing:
+						return
+					}
+				}
+			})
+		}
+	}, func(s *vsync.Scheduler) {
+		for i, e := range perr {
+			if e != nil {
+				x.Failf("relay-terminated", "variant %d: thread of relay %d failed: %v\n  schedule: %v", variant, i, e, s.Trace)
+			}
+		}
+		if !x.Failed() && y.oracleNoRelayCheck(fmt.Sprintf("scheduled run (variant %d): %v", variant, s.Trace)) && y.focus == "C10" {
+			// everything the windows permit has arrived: with the credit of the variant all 16 octets and END_STREAM
+			want, got := y.c.sentEl[1], y.s.gotEl[1]
+			if len(got) != len(want) || prefixDiff(got, want) != "" {
+				x.Failf("not-delivered", "variant %d: client emitted %s, server decoded %s\n  schedule: %v", variant, clipEls(want), clipEls(got), s.Trace)
+			}
+		}
+		x.Outcome(fmt.Sprintf("sched v%d preemptions=%d", variant, s.Preempt))
+		close(y.relayDone[0])
+		close(y.relayDone[1])
+		y.stop()
+	})
+}
+
 func runBubble(t *testing.T, f func(x *explore.X)) func(x *explore.X) {
 	return func(x *explore.X) { bubble.Run(t, x, func() { f(x) }) }
 }
@@ -1019,22 +1164,24 @@ func testH2(t *testing.T, prop string) {
 		s = explore.NewSuite(t, "C10", "model_checking",
 			"a real relay pair between two raw-frame endpoints with their own HPACK state; (fidelity) EVERY sequence of depth 3 (quick) / 4 (thorough) over a menu of ~25-40 enabled events on 2 streams in both directions {HEADERS plain / with priority / END_STREAM / split by the sender into HEADERS+CONTINUATION at several points / 20000-octet block, DATA small / padded / 20000 octets / empty END_STREAM, trailers (+CONTINUATION), RST_STREAM, PUSH_PROMISE, PRIORITY, PING, SETTINGS incl. HEADER_TABLE_SIZE 0/4096, SETTINGS ack, GOAWAY}; (flow) the flow family of C09 with its no-stranding and final-delivery oracles; at every quiescent state the receiver's decoded element sequence per stream (header lists, concatenated DATA, END_STREAM position, RST code, PUSH_PROMISE) must be a prefix of what the sender emitted, connection-level frames must be relayed in order, and at the end everything emitted must have been decoded")
 	}
-	s.Assume = []string{"Go map iteration order in relay.sendQueuedFramesUnderWindowSize (which stream gets a contended connection window first) is not controlled by the harness; every order that occurred satisfied the oracles", "the harness copies the relay wiring of Config.Proxy (which dials TLS itself and cannot run on the simulated network); the connection preface is outside the harness", "golang.org/x/net/http2.Framer and hpack are the endpoints' codecs", "interleavings between the two relays at lock granularity are not enumerated here (events are separated by quiescence)"}
+	s.Assume = []string{"the iteration order of the relay's per-stream queue map (Go leaves it unspecified) is owned by the harness through a build-time rewrite of the range statement: every rotation of the sorted stream ids is an explored choice", "the harness copies the relay wiring of Config.Proxy (which dials TLS itself and cannot run on the simulated network); the connection preface is outside the harness", "golang.org/x/net/http2.Framer and hpack are the endpoints' codecs", "(relay-interleavings) sync.Mutex / atomics / go statements of relay.go are redirected at build time to a cooperative scheduler: processFrame(client frames) || processFrame(server frames) || the two frame writers run as four scheduler threads over pre-loaded frames, all interleavings with at most 1 (quick) / 2 (thorough) preemptions; in the other families events are separated by quiescence"}
 	q, th := 3, 5
 	if v := os.Getenv("VERIF_H2_DEPTH"); v != "" {
 		fmt.Sscan(v, &q)
 		th = q
 	}
 	if prop == "C09" {
-		s.Add(explore.Scenario{Name: "flow-quick", Remote: true, Nondet: true, Tiers: []string{"quick"}, Run: runBubble(t, func(x *explore.X) { flowScenario(x, q) })})
-		s.Add(explore.Scenario{Name: "flow-thorough", Remote: true, Nondet: true, Tiers: []string{"thorough"}, Run: runBubble(t, func(x *explore.X) { flowScenario(x, th) })})
+		s.Add(explore.Scenario{Name: "flow-quick", Remote: true, Tiers: []string{"quick"}, Run: runBubble(t, func(x *explore.X) { flowScenario(x, q) })})
+		s.Add(explore.Scenario{Name: "flow-thorough", Remote: true, Tiers: []string{"thorough"}, Run: runBubble(t, func(x *explore.X) { flowScenario(x, th) })})
+		s.Add(explore.Scenario{Name: "relay-interleavings", Remote: true, MaxDev: map[string]int{"quick": 1, "thorough": 2}, Run: func(x *explore.X) { schedScenario(t, x) }})
 		s.Add(explore.Scenario{Name: "frame-size-quick", Remote: true, Tiers: []string{"quick"}, Run: runBubble(t, func(x *explore.X) { frameSizeScenario(x, 3) })})
 		s.Add(explore.Scenario{Name: "frame-size-thorough", Remote: true, Tiers: []string{"thorough"}, Run: runBubble(t, func(x *explore.X) { frameSizeScenario(x, 4) })})
 	} else {
+		s.Add(explore.Scenario{Name: "relay-interleavings", Remote: true, MaxDev: map[string]int{"quick": 1, "thorough": 2}, Run: func(x *explore.X) { schedScenario(t, x) }})
 		s.Add(explore.Scenario{Name: "fidelity-quick", Remote: true, Tiers: []string{"quick"}, Run: runBubble(t, func(x *explore.X) { fidelityScenario(x, 3) })})
 		s.Add(explore.Scenario{Name: "fidelity-thorough", Remote: true, Tiers: []string{"thorough"}, Run: runBubble(t, func(x *explore.X) { fidelityScenario(x, 4) })})
-		s.Add(explore.Scenario{Name: "flow-quick", Remote: true, Nondet: true, Tiers: []string{"quick"}, Run: runBubble(t, func(x *explore.X) { flowScenario(x, q) })})
-		s.Add(explore.Scenario{Name: "flow-thorough", Remote: true, Nondet: true, Tiers: []string{"thorough"}, Run: runBubble(t, func(x *explore.X) { flowScenario(x, th) })})
+		s.Add(explore.Scenario{Name: "flow-quick", Remote: true, Tiers: []string{"quick"}, Run: runBubble(t, func(x *explore.X) { flowScenario(x, q) })})
+		s.Add(explore.Scenario{Name: "flow-thorough", Remote: true, Tiers: []string{"thorough"}, Run: runBubble(t, func(x *explore.X) { flowScenario(x, th) })})
 	}
 	s.Main()
 }
